@@ -72,13 +72,13 @@ deriving Repr, Inhabited
 def lookup {α : Type} (kvs : List (String × α)) (k : String) : Option α :=
   match kvs with
   | [] => none
-  | (k', v) :: rest => if k' = k then some v else lookup rest k
+  | (k', v) :: rest => if k' == k then some v else lookup rest k
 
 /-- `d[k] = v` on an insertion-ordered dict: replace in place or append -/
 def setKey {α : Type} (kvs : List (String × α)) (k : String) (v : α) : List (String × α) :=
   match kvs with
   | [] => [(k, v)]
-  | (k', v') :: rest => if k' = k then (k, v) :: rest else (k', v') :: setKey rest k v
+  | (k', v') :: rest => if k' == k then (k, v) :: rest else (k', v') :: setKey rest k v
 
 theorem lookup_setKey_same {α : Type} (kvs : List (String × α)) (k : String) (v : α) :
     lookup (setKey kvs k v) k = some v := by
